@@ -27,6 +27,47 @@ using namespace stir;
 using vf::Ctx;
 using vf::Rng;
 
+// ------------------------------------------------------------------------------------------------ cache events seen from inside
+// STIR calls the weak symbol stir_verif_point() at its row-cache lookup / insert / clear sites (guard UCL_STIR_VERIF).  Counting
+// them for the matrix under test proves that the cache paths were really taken.  Nothing else is done in the hook.
+#if defined(UCL_STIR_VERIF) && defined(__has_include)
+#  if __has_include("stir/verif_hooks.h")
+#    include "stir/verif_hooks.h"
+#    define C03_HAVE_HOOKS 1
+#  endif
+#endif
+namespace
+{
+struct HookState
+{
+  const void* obj = nullptr; // the ProjMatrixByBin sub-object of the matrix under test
+  bool in_probe = false;     // look-ups made by the harness' own cache probe are not counted
+  long hit = 0, miss = 0, inserted = 0, cleared = 0;
+} g_hook;
+} // namespace
+#ifdef C03_HAVE_HOOKS
+extern "C" void
+stir_verif_point(int site, const void* obj, long a, long)
+{
+  if (obj != g_hook.obj || g_hook.in_probe)
+    return;
+  switch (site)
+    {
+    case STIR_VERIF_PMCACHE_LOOKUP:
+      ++(a ? g_hook.hit : g_hook.miss);
+      break;
+    case STIR_VERIF_PMCACHE_INSERTED:
+      ++g_hook.inserted;
+      break;
+    case STIR_VERIF_PMCACHE_CLEAR:
+      ++g_hook.cleared;
+      break;
+    default:
+      break;
+    }
+}
+#endif
+
 // ------------------------------------------------------------------------------------------------ small helpers
 static std::string
 bin_str(const Bin& b)
@@ -48,7 +89,10 @@ public:
   bool is_cached(const Bin& b) const
   {
     ProjMatrixElemsForOneBin p(b);
-    return this->get_cached_proj_matrix_elems_for_one_bin(p) == Succeeded::yes;
+    g_hook.in_probe = true;
+    const bool found = this->get_cached_proj_matrix_elems_for_one_bin(p) == Succeeded::yes;
+    g_hook.in_probe = false;
+    return found;
   }
 };
 
@@ -147,9 +191,9 @@ gen_geo(Rng& rng, bool thorough)
   Geo g;
   vg::ScannerOpts so;
   so.min_det = 8;
-  so.max_det = thorough ? 48 : 32;
+  so.max_det = thorough ? 64 : 40;
   so.min_rings = 1;
-  so.max_rings = thorough ? 5 : 4;
+  so.max_rings = thorough ? 6 : 5;
   so.p_tof = 0.12;
   so.allow_tilt = true;
   so.allow_blocks = false;
@@ -167,7 +211,8 @@ gen_geo(Rng& rng, bool thorough)
       g.ss.ring_spacing = static_cast<float>(rng.uniform(3., 8.));
   }
   // an intrinsic tilt makes the library switch off the rotational symmetries: keep it, but rarely
-  if (g.ss.tilt != 0.f && rng.coin(0.75))
+  // (and never inside the 1e-4 rad window below which the library still treats view 0 as phi=0)
+  if (g.ss.tilt != 0.f && (rng.coin(0.75) || std::fabs(g.ss.tilt) < 0.01f))
     g.ss.tilt = 0.f;
   // 90-phi symmetry needs a number of views that is a multiple of 4
   if (rng.coin(0.5))
@@ -208,7 +253,10 @@ gen_grid(Rng& rng, const Geo& g)
   const auto& cyl = dynamic_cast<const ProjDataInfoCylindrical&>(*g.pdi);
   const float samp = g.pdi->get_sampling_in_s(Bin(0, 0, 0, 0));
   gr.is.vx = static_cast<float>(samp * rng.uniform(0.5, 2.0));
-  gr.is.vy = rng.coin(0.65) ? gr.is.vx : static_cast<float>(gr.is.vx * rng.uniform(0.6, 1.6));
+  // square, or clearly not square: DataSymmetriesForBins_PET_CartesianGrid keeps the 90-degree symmetry while |vx-vy| <= 2e-3 mm,
+  // i.e. it treats such a grid as square on purpose; the generator stays out of that grey zone
+  gr.is.vy = rng.coin(0.65) ? gr.is.vx
+                            : static_cast<float>(gr.is.vx * (rng.coin(0.5) ? rng.uniform(0.6, 0.95) : rng.uniform(1.05, 1.6)));
   gr.is.nx = static_cast<int>(rng.range(3, 13));
   gr.is.ny = rng.coin(0.5) ? gr.is.nx : static_cast<int>(rng.range(3, 13));
   // z voxel size = ring spacing / k; the matrix and the symmetries need every segment's axial sampling to be a multiple of it
@@ -399,6 +447,118 @@ short_op_name(const SymmetryOperation& op)
   return out;
 }
 
+// what is wrong with a returned row (clause == nullptr: nothing)
+struct Finding
+{
+  const char* clause = nullptr;
+  std::string detail;
+};
+
+// All per-row clauses and the comparison with the directly computed row.
+//   a, label : the row under scrutiny (sorted) and the bin it says it belongs to;  b : the reference row (sorted)
+static Finding
+examine(const std::vector<Elem>& a, const Bin& label, const std::vector<Elem>& b, const Bin& bin, const Grid& grid, long* clipped_out)
+{
+  Finding f;
+  if (!same_bin_coords(label, bin))
+    {
+      f.clause = "row-labelled-with-other-bin";
+      f.detail = "returned row is labelled " + bin_str(label);
+      return f;
+    }
+  for (size_t i = 0; i < a.size(); ++i)
+    {
+      const Elem& e = a[i];
+      if (!(e.v >= 0.f) || !std::isfinite(e.v))
+        {
+          f.clause = "negative-or-nan-element";
+          f.detail = vf::fmt("voxel(z%d,y%d,x%d) value %g", e.z, e.y, e.x, e.v);
+          return f;
+        }
+      if (i > 0 && elem_same(a[i - 1], e))
+        {
+          f.clause = "voxel-twice-in-row";
+          f.detail = vf::fmt("voxel(z%d,y%d,x%d) values %g and %g", e.z, e.y, e.x, a[i - 1].v, e.v);
+          return f;
+        }
+      if (e.x < grid.minx || e.x > grid.maxx || e.y < grid.miny || e.y > grid.maxy)
+        {
+          f.clause = "voxel-outside-image-xy";
+          f.detail = vf::fmt("voxel(z%d,y%d,x%d) image x %d..%d y %d..%d", e.z, e.y, e.x, grid.minx, grid.maxx, grid.miny, grid.maxy);
+          return f;
+        }
+    }
+  // band from the complete reference row, comparison on the rows as applied (z clipped to the image)
+  float mx = 0;
+  for (const Elem& e : b)
+    mx = std::max(mx, e.v);
+  const float tol = mx * .002F;
+  auto in_z = [&](const Elem& e) { return e.z >= grid.minz && e.z <= grid.maxz; };
+  size_t i = 0, j = 0;
+  long clipped = 0;
+  const char* what = nullptr;
+  Elem wa{ 0, 0, 0, 0 }, wb{ 0, 0, 0, 0 };
+  while (i < a.size() || j < b.size())
+    {
+      if (i < a.size() && !in_z(a[i]))
+        {
+          ++i;
+          ++clipped;
+          continue;
+        }
+      if (j < b.size() && !in_z(b[j]))
+        {
+          ++j;
+          continue;
+        }
+      if (i < a.size() && j < b.size() && elem_same(a[i], b[j]))
+        {
+          if (std::fabs(a[i].v - b[j].v) > tol)
+            {
+              what = "value-differs";
+              wa = a[i];
+              wb = b[j];
+              break;
+            }
+          ++i;
+          ++j;
+        }
+      else if (j >= b.size() || (i < a.size() && elem_less(a[i], b[j])))
+        {
+          if (a[i].v > tol)
+            {
+              what = "extra-voxel";
+              wa = a[i];
+              break;
+            }
+          ++i;
+        }
+      else
+        {
+          if (b[j].v > tol)
+            {
+              what = "missing-voxel";
+              wb = b[j];
+              break;
+            }
+          ++j;
+        }
+    }
+  if (clipped_out)
+    *clipped_out = clipped;
+  if (what)
+    {
+      f.clause = "row-differs-from-direct-computation";
+      f.detail = what;
+      if (std::string(what) != "missing-voxel")
+        f.detail += vf::fmt(" got voxel(z%d,y%d,x%d)=%g", wa.z, wa.y, wa.x, wa.v);
+      if (std::string(what) != "extra-voxel")
+        f.detail += vf::fmt(" reference voxel(z%d,y%d,x%d)=%g", wb.z, wb.y, wb.x, wb.v);
+      f.detail += vf::fmt(" band %g (row max %g); row has %zu elements, reference %zu", tol, mx, a.size(), b.size());
+    }
+  return f;
+}
+
 // one matrix under test with its reference, for one (pdi, grid)
 struct Monitor
 {
@@ -408,7 +568,7 @@ struct Monitor
   const Geo& geo;
   const Grid& grid;
   Settings st;
-  std::string geo_tag; // part of the violation key: which kind of geometry the matrix is currently set up for
+  std::string geo_tag; // stage of the history: which geometry the matrix is currently set up for ("first", "after-re-set_up:<variant>", ...)
   // set when set_up() was observed to do nothing although the image's index range changed (see run_case): every violation
   // seen in that state is reported under this one key
   std::string key_override;
@@ -427,15 +587,47 @@ struct Monitor
         geo_tag(tag)
   {}
 
-  std::string key(const char* clause, const char* phase, const std::string& op) const
+  // Triage of a finding, only to choose a stable violation key: does a *fresh* matrix object with the same symmetry switches
+  // (cache disabled, set up once for this geometry, asked for this bin only) return the same kind of wrong row?
+  //   yes -> the symmetry path is wrong whatever the history:  <clause>:symmetry-operation:<op>
+  //   no  -> the row depends on the history / cache:           <clause>:request-history:<cache mode>:<stage>
+  std::string key_for(const Finding& f, const Bin& bin, const char* phase, const std::string& op, std::string& note)
   {
     if (!key_override.empty())
-      return key_override;
-    return std::string(clause) + ":" + phase + ":" + geo_tag + ":" + op;
-  }
-  std::string context(const Bin& bin, const char* phase, const std::string& op) const
-  {
-    return bin_str(bin) + " phase=" + phase + " geometry=" + geo_tag + " symmetry_op=" + op + " settings=" + st.desc().str();
+      {
+        note = "[set_up() returned without doing anything although the image index range changed] ";
+        return key_override;
+      }
+    bool fresh_is_wrong_too = false;
+    try
+      {
+        ProjMatrixByBinUsingRayTracing fresh;
+        Settings s = st;
+        s.cache_mode = (st.cache_mode == 1 || st.cache_mode == 3) ? 1 : 0; // same code path, nothing cached
+        apply_settings(fresh, s);
+        fresh.set_up(geo.pdi, grid.img);
+        ProjMatrixElemsForOneBin r;
+        fresh.get_proj_matrix_elems_for_one_bin(r, bin);
+        std::vector<Elem> fa;
+        extract(r, fa);
+        const Finding ff = examine(fa, r.get_bin(), b, bin, grid, nullptr);
+        fresh_is_wrong_too = ff.clause != nullptr;
+      }
+    catch (...)
+      {}
+    if (fresh_is_wrong_too)
+      {
+        note = "[a fresh matrix with the same symmetry switches and no cache returns a wrong row for this bin as well] ";
+        return std::string(f.clause) + ":symmetry-operation:" + op;
+      }
+    note = "[a fresh matrix with the same symmetry switches and no cache returns the correct row: the error depends on the history] ";
+    static const char* cmn[] = { "cache-disabled", "cache-disabled-allbins-path", "cache-basic-bins-only", "cache-all-bins" };
+    std::string stage = geo_tag.substr(0, geo_tag.find(':'));
+    if (stage == "first")
+      stage = phase;
+    else if (std::string(phase) != "first-pass")
+      stage += std::string("+") + phase;
+    return std::string(f.clause) + ":request-history:" + cmn[st.cache_mode] + ":" + stage;
   }
 
   // returns false after reporting a violation
@@ -485,106 +677,16 @@ struct Monitor
     if (!b.empty())
       ctx.count("rows_nonempty");
 
-    if (!same_bin_coords(row.get_bin(), bin))
-      {
-        ctx.violation(key("row-labelled-with-other-bin", phase, op),
-                      context(bin, phase, op) + " returned row is labelled " + bin_str(row.get_bin()));
-        return false;
-      }
-    // per-row clauses
-    for (size_t i = 0; i < a.size(); ++i)
-      {
-        const Elem& e = a[i];
-        if (!(e.v >= 0.f) || !std::isfinite(e.v))
-          {
-            ctx.violation(key("negative-or-nan-element", phase, op),
-                          context(bin, phase, op) + vf::fmt(" voxel(z%d,y%d,x%d) value %g", e.z, e.y, e.x, e.v));
-            return false;
-          }
-        if (i > 0 && elem_same(a[i - 1], e))
-          {
-            ctx.violation(key("voxel-twice-in-row", phase, op),
-                          context(bin, phase, op) + vf::fmt(" voxel(z%d,y%d,x%d) values %g and %g", e.z, e.y, e.x, a[i - 1].v, e.v));
-            return false;
-          }
-        if (e.x < grid.minx || e.x > grid.maxx || e.y < grid.miny || e.y > grid.maxy)
-          {
-            ctx.violation(key("voxel-outside-image-xy", phase, op),
-                          context(bin, phase, op)
-                              + vf::fmt(" voxel(z%d,y%d,x%d) image x %d..%d y %d..%d", e.z, e.y, e.x, grid.minx, grid.maxx, grid.miny,
-                                        grid.maxy));
-            return false;
-          }
-      }
-    // band from the complete reference row, comparison on the rows as applied (z clipped to the image)
-    float mx = 0;
-    for (const Elem& e : b)
-      mx = std::max(mx, e.v);
-    const float tol = mx * .002F;
-    auto in_z = [&](const Elem& e) { return e.z >= grid.minz && e.z <= grid.maxz; };
-    size_t i = 0, j = 0;
     long clipped = 0;
-    const char* what = nullptr;
-    Elem wa{ 0, 0, 0, 0 }, wb{ 0, 0, 0, 0 };
-    while (i < a.size() || j < b.size())
-      {
-        if (i < a.size() && !in_z(a[i]))
-          {
-            ++i;
-            ++clipped;
-            continue;
-          }
-        if (j < b.size() && !in_z(b[j]))
-          {
-            ++j;
-            continue;
-          }
-        if (i < a.size() && j < b.size() && elem_same(a[i], b[j]))
-          {
-            if (std::fabs(a[i].v - b[j].v) > tol)
-              {
-                what = "value-differs";
-                wa = a[i];
-                wb = b[j];
-                break;
-              }
-            ++i;
-            ++j;
-          }
-        else if (j >= b.size() || (i < a.size() && elem_less(a[i], b[j])))
-          {
-            if (a[i].v > tol)
-              {
-                what = "extra-voxel";
-                wa = a[i];
-                break;
-              }
-            ++i;
-          }
-        else
-          {
-            if (b[j].v > tol)
-              {
-                what = "missing-voxel";
-                wb = b[j];
-                break;
-              }
-            ++j;
-          }
-      }
+    const Finding f = examine(a, row.get_bin(), b, bin, grid, &clipped);
     if (clipped)
       ctx.count("elements_outside_image_z_dropped_as_applied", clipped);
-    if (what)
+    if (f.clause)
       {
-        std::string w = context(bin, phase, op) + " basic_" + bin_str(basic) + " " + what;
-        if (!key_override.empty())
-          w = "[set_up() returned without doing anything although the image index range changed] " + w;
-        if (std::string(what) != "missing-voxel")
-          w += vf::fmt(" got voxel(z%d,y%d,x%d)=%g", wa.z, wa.y, wa.x, wa.v);
-        if (std::string(what) != "extra-voxel")
-          w += vf::fmt(" reference voxel(z%d,y%d,x%d)=%g", wb.z, wb.y, wb.x, wb.v);
-        w += vf::fmt(" band %g (row max %g); row has %zu elements, reference %zu", tol, mx, a.size(), b.size());
-        ctx.violation(key("row-differs-from-direct-computation", phase, op), w);
+        std::string note;
+        const std::string k = key_for(f, bin, phase, op, note);
+        ctx.violation(k, note + bin_str(bin) + " phase=" + phase + " geometry=" + geo_tag + " symmetry_op=" + op + " basic_"
+                             + bin_str(basic) + " settings=" + st.desc().str() + " : " + f.detail);
         return false;
       }
     return true;
@@ -658,6 +760,21 @@ run_case(Ctx& ctx)
 
   ProjMatrixByBinUsingRayTracing REF;
   ProbeMatrix M;
+  g_hook = HookState();
+  g_hook.obj = static_cast<const ProjMatrixByBin*>(&M);
+  struct HookReport
+  {
+    Ctx& c;
+    ~HookReport()
+    {
+      // also on the violation / exception paths
+      c.count("hook_pmcache_lookup_hit", g_hook.hit);
+      c.count("hook_pmcache_lookup_miss", g_hook.miss);
+      c.count("hook_pmcache_inserted", g_hook.inserted);
+      c.count("hook_pmcache_cleared", g_hook.cleared);
+      g_hook = HookState();
+    }
+  } hook_report{ ctx };
   try
     {
       set_up_reference(REF, g1, gr1, st);
@@ -853,7 +970,7 @@ run_case(Ctx& ctx)
             }
           ctx.count("re_setups");
           ctx.count("re_setups_back_to_first_geometry");
-          Monitor mon3(ctx, M, REF, g1, gr1, st_back, "back-after:" + (ok2 ? variant : std::string("rejected-geometry")));
+          Monitor mon3(ctx, M, REF, g1, gr1, st_back, "back-after-re-set_up:" + (ok2 ? variant : std::string("rejected-geometry")));
           rng.shuffle(bins);
           const size_t lim = ctx.thorough() ? 6000 : 2500;
           ctx.heartbeat("back");
